@@ -209,16 +209,23 @@ class Polarization(BaseState):
         ):
             assert isinstance(self.state, jnp.ndarray)
             assert self.state.shape == (self.dimensions, 1)
-            if jnp.allclose(self.state, jnp.array([[1], [0]])):
+            # Only rounding errors are tolerated: with the default tolerances of
+            # allclose a state up to 1e-5 away from a label would be replaced by it
+            exact = {"rtol": 0.0, "atol": 1e-12}
+            if jnp.allclose(self.state, jnp.array([[1], [0]]), **exact):
                 self.state = PolarizationLabel.H
-            elif jnp.allclose(self.state, jnp.array([[0], [1]])):
+            elif jnp.allclose(self.state, jnp.array([[0], [1]]), **exact):
                 self.state = PolarizationLabel.V
             elif jnp.allclose(
-                self.state, jnp.array([[1 / jnp.sqrt(2)], [1j / jnp.sqrt(2)]])
+                self.state,
+                jnp.array([[1 / jnp.sqrt(2)], [1j / jnp.sqrt(2)]]),
+                **exact,
             ):
                 self.state = PolarizationLabel.R
             elif jnp.allclose(
-                self.state, jnp.array([[1 / jnp.sqrt(2)], [-1j / jnp.sqrt(2)]])
+                self.state,
+                jnp.array([[1 / jnp.sqrt(2)], [-1j / jnp.sqrt(2)]]),
+                **exact,
             ):
                 self.state = PolarizationLabel.L
             if isinstance(self.state, PolarizationLabel):
